@@ -32,7 +32,7 @@ for conf_path in sorted(glob.glob(f"/verif/work/confirm/r{rnd}-C*-*.json")):
         print(p, n, "source gone and nothing kept: skipped")
         continue
     detection = []
-    for kind, label in (("first", "first measurement"), ("first-e2e", "first measurement, e2e half"), ("now", "after the extensions of round 3")):
+    for kind, label in (("first", "first measurement"), ("first-e2e", "first measurement, e2e half"), ("now", f"after the extensions of round {rnd}")):
         tag = {"first": f"r{rnd}-first-{p}-{n}", "first-e2e": f"r{rnd}-first-{p}e-{n}", "now": f"r{rnd}-now-{p}-{n}"}[kind]
         f = f"/verif/work/evalseeds/{tag}.json"
         if not os.path.exists(f):
